@@ -135,7 +135,10 @@ def genx_term(c):
             for cc in g.get('consensus') or []]
     meta = ['(%s, %s)' % (hb(m['chain']), coq_list(['(%s, %d)' % (hb(it['key']), it['val_len']) for it in m['items'] or []]))
             for m in g.get('metadata') or []]
-    rel = ['%d' % len(bytes.fromhex(r['address'])) for r in g.get('relayers') or []]
+    rors = o.get('relayer_oracles') or []
+    rel = ['{| rl_addr_len := %d; rl_bech32 := %s; rl_chains := %s; rl_n_addresses := %d |}' % (
+        len(bytes.fromhex(r['address'])), coq_bool(rors[i] if i < len(rors) else False),
+        coq_list([hb(x) for x in r.get('chains') or []]), len(r.get('addresses') or [])) for i, r in enumerate(g.get('relayers') or [])]
     then = xsteps_term(g.get('then') or [], c['obs'][1:])
     return ('(CGX {| gx_clients := %s; gx_consensus := %s; gx_metadata := %s; gx_relayers := %s; gx_native := %s; gx_acks := %s; '
             'gx_commitments := %s; gx_receipts := %s; gx_seqs := %s |} %s %d %s)' % (
@@ -277,6 +280,8 @@ def truncate(c, n):
     k = c['kind']
     if k in ('xibc', 'agg', 'rv'):
         c[k]['steps'] = c[k]['steps'][:n + 1]
+    if k == 'gen_xibc' and c[k].get('then'):
+        c[k]['then'] = c[k]['then'][:n]  # obs[0] is the genesis itself
     return c
 
 
@@ -313,7 +318,13 @@ def finding_key(case, step, obs):
     """canonical signature of a monitor failure (KNOWN_FINDINGS.txt key=)"""
     k = case['kind']
     if k == 'gen_xibc':
-        if any(len(r.get('address') or '') == 0 for r in case['gen_xibc'].get('relayers') or []):
+        then = case['gen_xibc'].get('then') or []
+        if (obs or {}).get('x_panic') is not None and step >= 1 and step - 1 < len(then):
+            st = then[step - 1]
+            if 'index out of range [1] with length 1' in obs['x_panic'] and st['op'] == 'upgrade' and (st.get('cs') or {}).get('kind') == 'bsc':
+                return 'bsc-upgrade-malformed-signer-key'
+            return 'xibc-proposal-after-genesis:%s:%s' % (st['op'], (st.get('cs') or {}).get('kind'))
+        if any(len(r.get('address') or '') == 0 for r in case['gen_xibc'].get('relayers') or []) and (obs or {}).get('x_panic') == 'key is nil':
             return 'xibc-genesis-relayer-empty-address'
         return 'xibc-genesis'
     if k == 'gen_rv':
@@ -430,10 +441,13 @@ def check(run):
         reported.add(h)
         small = shrink(run.work, truncate(results[h], s), 'monitor')
         ob = obs_at(results[h], s)
-        key = finding_key(results[h], min(s, len(steps_of(small) or [0]) - 1) if steps_of(small) else 0, ob)
-        # the failing step is the last one of the shrunk case
+        # the failing step is the last one of the (shrunk) case
         if steps_of(small):
             key = finding_key(small, len(steps_of(small)) - 1, ob)
+        elif small['kind'] == 'gen_xibc':
+            key = finding_key(small, len(small['gen_xibc'].get('then') or []) if s >= 1 else 0, ob)
+        else:
+            key = finding_key(small, 0, ob)
         if run.known_finding(key, 'key=%s (%s)' % (key, FINDING_TEXT.get(key, 'listed in KNOWN_FINDINGS.txt'))):
             known[key] = known.get(key, 0) + 1
             continue
